@@ -358,6 +358,24 @@ loop:
 	o.lc.ShutdownInitiated(nil)
 	o.sub.Close()
 
+	// A reservation request or a bid broadcast may still be in flight (or its result may not have
+	// been read yet): wait for it here, so that what it created is released below instead of the
+	// result being dropped at the end.
+	if clusterch != nil {
+		result := <-clusterch
+		clusterch = nil
+		if result.Error() == nil {
+			reservation = result.Value().(ctypes.Reservation)
+		}
+	}
+	if bidch != nil {
+		result := <-bidch
+		bidch = nil
+		if result.Error() == nil {
+			o.bidPlaced = true
+		}
+	}
+
 	// cancel reservation
 	if !won {
 		if reservation != nil {
